@@ -65,6 +65,11 @@ func c04Scenarios(tier string) []schedh.Scenario {
 	for _, n := range qn {
 		out = append(out, schedh.Scenario{Name: fmt.Sprintf("query-subinclude-n%d", n), Files: sub, Targets: []string{"//p:a", "//r:x"}, Threads: n, Query: true})
 	}
+	// a dependant that is activated late (through another package) while the target whose post-build function will add a
+	// dependency to it is already building
+	pbLate := "def _pb(name, output):\n    build_rule(name=\"h\", cmd=\"FAKE\", outs=[\"h.out\"])\n    add_dep(\"a\", \":h\")\n" +
+		"build_rule(name=\"g\", cmd=\"FAKE\", outs=[\"g.out\"], post_build=_pb, visibility=[\"PUBLIC\"])\n" + rule("a", ":g")
+	add("postbuild-late-dependant", map[string]string{"p/BUILD": pbLate, "q/BUILD": rule("z", "//p:a")}, "//p:g", "//q:z")
 	add("postbuild", map[string]string{"p/BUILD": "def _pb(name, output):\n    build_rule(name=\"h\", cmd=\"FAKE\", outs=[\"h.out\"])\n    add_dep(\"a\", \":h\")\n" +
 		"build_rule(name=\"g\", cmd=\"FAKE\", outs=[\"g.out\"], post_build=_pb)\n" + rule("a", ":g")}, "//p:a")
 	return out
@@ -206,6 +211,13 @@ func oracle(prop string, sc schedh.Scenario, obs *schedh.Obs, res *vsched.Result
 		if n > 1 && prop == "C04" { // exactly-once reporting is C04's statement; C05 is about termination and the exit status
 
 			return "reported-twice", fmt.Sprintf("%s has %d terminal results\n%s", l, n, obs.String())
+		}
+	}
+	// a target whose command ran must have had every declared dependency resolved (a dependency added by a post-build
+	// function is declared at once and resolved when the dependant's queueing loop goes round again)
+	for l := range starts {
+		if u := obs.Unresolved[l]; len(u) > 0 {
+			return "started-with-unresolved-declared-dependency", fmt.Sprintf("%s ran although its declared dependency %s was never resolved (and so never waited for)\n%s", l, u[0], obs.String())
 		}
 	}
 	for l := range ended {
